@@ -83,8 +83,8 @@ Definition enum_deser (m : option nsmap) (d : enum_def) (s : str) : option nat :
       end
   end.
 
-(* ConverterFactory.serialize of a member's value.  A tuple value has no
-   registered converter (ConverterError); a list is joined with spaces; the
+(* ConverterFactory.serialize of a member's value.  A list or (since /repo f0dd6fc)
+   a tuple is a token list: the items are serialized and joined with spaces; the
    prefix map is threaded through (QName serialization may add prefixes) *)
 Definition atom_ser (m : option nsmap) (a : atom) : option (str * option nsmap) :=
   match a with
@@ -112,6 +112,5 @@ Fixpoint atoms_ser (m : option nsmap) (l : list atom) : option (list str * optio
 Definition enum_ser (m : option nsmap) (v : evalue) : option (str * option nsmap) :=
   match v with
   | EvAtom a => atom_ser m a
-  | EvList l => option_map (fun p => (join [32] (fst p), snd p)) (atoms_ser m l)
-  | EvTuple _ => None
+  | EvList l | EvTuple l => option_map (fun p => (join [32] (fst p), snd p)) (atoms_ser m l)
   end.
